@@ -103,6 +103,9 @@ def main():
                     t = {"Outputs": {"O": {"Value": v}}, "Resources": {}}
                 elif w == "description":
                     t = {"Description": v, "Resources": {}}
+                elif w == "json-text":
+                    text = ("[" * op["depth"] + "]" * op["depth"]) if op["kind"] == "arr" else ('{"a":' * op["depth"] + "1" + "}" * op["depth"])
+                    t = {"Resources": {"R": {"Type": "Custom::Deep", "Properties": {"P": text, "L": [text]}}}}
                 elif w == "function-body":
                     t = {"Resources": {"R": {"Type": "Custom::Deep", "Properties": {"P": {"Fn::Join": ["", v]}}}}}
                 else:
